@@ -316,6 +316,29 @@ class Normalizer(object):
             if r is not None and isinstance(inner, ast.Attribute) and dotted(inner):
                 d = dotted(inner)
                 e = ast.Call(func=inner, args=e.args, keywords=e.keywords)
+            elif r is not None and isinstance(inner, ast.Lambda) and self._depth < 10:
+                # beta-reduction: a call of a local lambda (helper defined in the function) is its body at the arguments
+                la = inner.args
+                if not (la.vararg or la.kwarg or la.kwonlyargs or la.posonlyargs or la.defaults) \
+                        and not any(isinstance(a, ast.Starred) for a in e.args) and not any(k.arg is None for k in e.keywords):
+                    ps = [a.arg for a in la.args]
+                    amap = dict(zip(ps, e.args))
+                    ok_ = len(e.args) <= len(ps)
+                    for k in e.keywords:
+                        if k.arg in ps and k.arg not in amap:
+                            amap[k.arg] = k.value
+                        else:
+                            ok_ = False
+                    if ok_ and set(amap) == set(ps):
+                        envb = dict(self.env)
+                        for p_, a_ in amap.items():
+                            envb[p_] = self.n(a_)
+                        sub = Normalizer(envb, None, keep_casts=False, ordered_add=self.ordered_add)
+                        sub.transparent = self.transparent
+                        sub._depth = self._depth + 1
+                        if isinstance(r, _Rebased):
+                            sub.resolver = make_resolver(r.cfg, r.rd, r.at, tuple(r.stop) + tuple(ps), r.only_lambdas)
+                        return sub.n(inner.body)
         name = canon_func(d) if d else None
         # one spelling for positional / keyword arguments of callables whose signature is known
         params = None
@@ -330,6 +353,10 @@ class Normalizer(object):
         if params is not None and len(pos_args) <= len(params) and not (set(params[:len(pos_args)]) & {k.arg for k in e.keywords}):
             extra_kw = [(params[i], self.n(a)) for i, a in enumerate(pos_args)]
             pos_args = []
+        if len(e.args) == 1 and not e.keywords and isinstance(e.args[0], ast.IfExp) and d:
+            ie = e.args[0]
+            return ('ifexp', self.n(ie.test), self.n(ast.Call(func=e.func, args=[ie.body], keywords=[])),
+                    self.n(ast.Call(func=e.func, args=[ie.orelse], keywords=[])))
         args = [self.n(a) for a in pos_args]
         kws = tuple(sorted([(k.arg or '**', self.n(k.value)) for k in e.keywords] + extra_kw))
         if d in self.transparent and len(e.args) == 1 and not [k for k in e.keywords if k.arg != 'dtype']:
@@ -474,7 +501,7 @@ def show(t, depth=0):
     return '%s(%s)' % (h, ', '.join(show(x) for x in t[1:]))
 
 
-def make_resolver(cfg, rd, at_node, stop=()):
+def make_resolver(cfg, rd, at_node, stop=(), only_lambdas=False):
     """Resolver that inlines `name` by its unique reaching plain assignment at `at_node`.
     Names in `stop` are never inlined.  Inlined sub-expressions are resolved at their own
     definition site (so chains x = f(y); z = g(x) work)."""
@@ -494,12 +521,14 @@ def make_resolver(cfg, rd, at_node, stop=()):
         v = rd.assigned_value(d, nm)
         if v is None:
             return None
+        if only_lambdas and not isinstance(v, ast.Lambda):
+            return None
         # in-place modification between def and use makes the value differ: refuse to inline
         for n in cfg.nodes:
             if nm in rd.mods[n.id] and n.id != d.id:
                 if cfg.reaches_avoiding(d, n, []) and cfg.reaches_avoiding(n, _at, []):
                     return None
-        return _Rebased(v, cfg, rd, d, stop)
+        return _Rebased(v, cfg, rd, d, stop, only_lambdas)
     return resolver
 
 
@@ -507,13 +536,13 @@ class _Rebased(ast.AST):
     """Marker wrapper: expression `expr` must be normalised with names resolved at node `at`."""
     _fields = ()
 
-    def __init__(self, expr, cfg, rd, at, stop):
-        self.expr, self.cfg, self.rd, self.at, self.stop = expr, cfg, rd, at, stop
+    def __init__(self, expr, cfg, rd, at, stop, only_lambdas=False):
+        self.expr, self.cfg, self.rd, self.at, self.stop, self.only_lambdas = expr, cfg, rd, at, stop, only_lambdas
 
 
 def _n_Rebased(self, e):
     old = self.resolver
-    self.resolver = make_resolver(e.cfg, e.rd, e.at, e.stop)
+    self.resolver = make_resolver(e.cfg, e.rd, e.at, e.stop, e.only_lambdas)
     try:
         return self.n(e.expr)
     finally:
@@ -709,11 +738,12 @@ def parse_pattern(src, N=None):
             s = s[2:]
         s = s + '\n    pass\n'
     from . import canon
-    body = canon._block(ast.parse(s).body)
+    tree = canon._Tests().visit(ast.parse(s))
+    body = canon._block(tree.body)
     return stmt_nf(body[0], N)
 
 
 def parse_block(src):
     """Parse statement source and bring it to the same canonical shape as loaded modules (canon.py)."""
     from . import canon
-    return canon._block(ast.parse(src).body)
+    return canon._block(canon._Tests().visit(ast.parse(src)).body)
